@@ -193,3 +193,104 @@ def _c04_locate(mask: int) -> bool:
 
 def explain_c04_locate(mask):
     return {'why': _locate_run(mask)[1]}
+
+
+# ---- real files: SQLite genome database + HDF5 signature file in a directory (created once at import, outside the analysis)
+
+import shutil
+import itertools as _it
+
+_ROOT = os.path.join(os.path.dirname(os.path.dirname(os.path.abspath(__file__))), 'scratch', 'c04_dirs')
+_PERMS = list(_it.permutations(range(3)))
+_EXTRA_POS = [None, 0, 1, 2, 3]
+_RSIGS = [np.arange(i * 5, i * 5 + 8, dtype='u4') for i in range(3)]
+
+
+def _dir_for(perm_i, extra_i, attr_i):
+    return os.path.join(_ROOT, f'p{perm_i}_e{extra_i}_a{attr_i}')
+
+
+def _prepare_dirs():
+    from gambit.sigs.base import SignatureList, AnnotatedSignatures, dump_signatures
+    os.makedirs(_ROOT, exist_ok=True)
+    gdb = os.path.join(_ROOT, 'genomes.gdb')
+    if not os.path.exists(gdb):
+        tmp = gdb + f'.{os.getpid()}.tmp'
+        eng = create_engine(f'sqlite:///{tmp}')
+        Base.metadata.create_all(eng)
+        s = sessionmaker(eng)()
+        gset = ReferenceGenomeSet(key='gs', version='1.0', name='test set')
+        tax = Taxon(key='t', name='taxon', genome_set=gset, distance_threshold=0.5)
+        s.add(gset)
+        for i in range(3):
+            g = Genome(key=f'k{i}', description=f'genome {i}', ncbi_db='assembly', ncbi_id=100 + i, genbank_acc=f'GCA_{i}', refseq_acc=f'GCF_{i}')
+            s.add(AnnotatedGenome(genome=g, genome_set=gset, taxon=tax, organism='o'))
+        s.add(Genome(key='other', description='not in set', ncbi_db='assembly', ncbi_id=999, genbank_acc='GCA_x', refseq_acc='GCF_x'))
+        s.commit()
+        s.close()
+        eng.dispose()
+        os.replace(tmp, gdb)
+    vals = {'key': ['k0', 'k1', 'k2'], 'genbank_acc': ['GCA_0', 'GCA_1', 'GCA_2'], 'refseq_acc': ['GCF_0', 'GCF_1', 'GCF_2'], 'ncbi_id': [100, 101, 102]}
+    extra = {'key': 'other', 'genbank_acc': 'GCA_x', 'refseq_acc': 'GCF_q', 'ncbi_id': 999}
+    for pi, perm in enumerate(_PERMS):
+        for ei, epos in enumerate(_EXTRA_POS):
+            for ai, attr in enumerate(ATTRS):
+                d = _dir_for(pi, ei, ai)
+                if os.path.exists(os.path.join(d, 'sigs.gs')) and os.path.exists(os.path.join(d, 'genomes.gdb')):
+                    continue
+                tmpd = d + f'.{os.getpid()}.tmp'
+                shutil.rmtree(tmpd, ignore_errors=True)
+                os.makedirs(tmpd)
+                shutil.copy(gdb, os.path.join(tmpd, 'genomes.gdb'))
+                ids = [vals[attr][g] for g in perm]
+                sigs = [_RSIGS[g] for g in perm]
+                if epos is not None:
+                    ids.insert(epos, extra[attr])
+                    sigs.insert(epos, np.array([1000, 1001], dtype='u4'))
+                ann = AnnotatedSignatures(SignatureList(sigs, KmerSpec(9, 'AT'), dtype=np.dtype('u4')), np.array(ids) if attr == 'ncbi_id' else ids, SignaturesMeta(id_attr=attr, name='test'))
+                dump_signatures(os.path.join(tmpd, 'sigs.gs'), ann)
+                shutil.rmtree(d, ignore_errors=True)
+                os.replace(tmpd, d)
+
+
+if P.get('files'):
+    _prepare_dirs()
+
+
+def _files_concrete(perm_i, extra_i, attr_i):
+    d = _dir_for(perm_i, extra_i, attr_i)
+    db = ReferenceDatabase.load_from_dir(d)
+    try:
+        attr = ATTRS[attr_i]
+        if len(db.genomes) != 3:
+            return False, 'not three genomes'
+        for g, si in zip(db.genomes, db.sig_indices):
+            if db.signatures.ids[si] != getattr(g.genome, attr):
+                return False, f'genome {g.genome.key} paired with signature #{si} whose id is {db.signatures.ids[si]!r}'
+        res = gquery.query(db, [_RSIGS[i] for i in range(3)], chunksize=2)
+        for i, item in enumerate(res.items):
+            cm = item.classifier_result.closest_match
+            if cm.genome.genome.key != f'k{i}' or float(cm.distance) != 0.0:
+                return False, f'query with the signature of genome k{i}: closest is {cm.genome.genome.key} at {cm.distance}'
+            if [m.genome.genome.key for m in item.closest_genomes][0] != f'k{i}':
+                return False, 'closest list head'
+        return True, None
+    finally:
+        db.signatures.close()
+        db.session.close()
+
+
+def _c04_files(perm_i: int, extra_i: int, attr_i: int) -> bool:
+    """
+    Real directory with an SQLite genome file and an HDF5 signature file: load_from_dir, then a real query in which every genome's own
+    signature must come back at distance 0 from that genome.
+    pre: 0 <= perm_i < len(_PERMS) and 0 <= extra_i < len(_EXTRA_POS) and 0 <= attr_i < 4
+    post: _
+    """
+    a = (fork_int(perm_i, 0, len(_PERMS) - 1), fork_int(extra_i, 0, len(_EXTRA_POS) - 1), fork_int(attr_i, 0, 3))
+    with NoTracing():
+        return _files_concrete(*a)[0]
+
+
+def explain_c04_files(perm_i, extra_i, attr_i):
+    return {'signature_order': _PERMS[perm_i], 'extra_signature_at': _EXTRA_POS[extra_i], 'id_attr': ATTRS[attr_i], 'why': _files_concrete(perm_i, extra_i, attr_i)[1]}
